@@ -9,7 +9,7 @@ from pathlib import Path
 from hypothesis import strategies as st
 
 from pbt import strategies as S
-from pbt.common import Stats, Sub, Violation
+from pbt.common import Stats, Sub, Violation, scratch_dir
 from pbt.model import norm_records
 from pbt.sut import BUILD_MODES, Converter, curies, dump_records, mk_converter_via, mk_records
 
@@ -31,7 +31,6 @@ ASSUMPTIONS = [
     "writing to a remote location / loading from a URL cannot be exercised offline",
 ]
 
-_TMP = tempfile.TemporaryDirectory(prefix="curies-c14-")
 _n = [0]
 PRINTABLE = "abAB01._-:/#\\ é$^*+?(){}[]|~%&=,;!'`@"
 PATTERNS = [None, None, "^\\d+$", "^\\d{7}$", "^[A-Z]+\\.\\d+$", "^a\\\\b$", "\\w+\\s\\S", "^(\\d+)-\\1$", "\\\\"]
@@ -39,7 +38,7 @@ PATTERNS = [None, None, "^\\d+$", "^\\d{7}$", "^[A-Z]+\\.\\d+$", "^a\\\\b$", "\\
 
 def _path(ext):
     _n[0] += 1
-    return Path(_TMP.name) / f"f{_n[0]}.{ext}"
+    return scratch_dir() / f"f{_n[0]}.{ext}"
 
 
 @st.composite
